@@ -9,6 +9,41 @@ COMMON_NOTE = ("Trusted: Coq 8.16.1 kernel; extraction with ExtrOcamlBasic only 
                "the radix-tree library, flock(2), goroutine scheduling. See DESIGN.md section 5.")
 
 CHECKS = {
+ 'C01': dict(text="Proof (Coq): for every history of API calls on one directory - Open in any mode (Check/Recover/EagerVersionMigrate, "
+                  "read-write or read-only, any rollover size, either format version), Close, Publish, Delete, Consume, Get, GetByKey, "
+                  "ConsumeByKey, GetByTime, NextOffset, Stat (incl. their lazy index rebuilds), removal of any index files, Migrate and "
+                  "Recover of the closed directory - of any length, every reachable state of the segment-list model is Good (closed and "
+                  "well-formed, open with Inv, or the virtual read-only handle of an empty directory) and its abstract log is the fold of the "
+                  "abstract steps: a successful Publish appends exactly its messages, a successful Delete removes exactly what it reported, "
+                  "nothing else changes the live messages or NextOffset (history_refines); Consume/Get on any such state show exactly that "
+                  "abstract log, in strictly increasing offset order (C03/C04 theorems). Trim/compaction helpers are compositions of these "
+                  "calls (their loops are transcribed in Helpers.v and exercised by the correspondence; GC only drops caches and is a no-op "
+                  "of the model). Tied to /repo by seeded histories over all those operations incl. trims, compaction, GC and reopen with "
+                  "random options: every result line is compared with the extracted model, and after every step a full scan of the "
+                  "implementation is checked against the abstract log built only from what the implementation reported.",
+             ref='6/C01', technique='Coq proof (history-level refinement to an abstract log by invariant) + differential correspondence with extracted model'),
+ 'C11': dict(text="Partial. Proved (Coq): Close leaves a directory in which every segment (not only the newest) is well-formed and every index "
+                  "file that is present and not header-only agrees with its log file on every offset and file position; removing any subset "
+                  "of index files keeps the directory well-formed with the same content; reopening it in any mode (read-write or read-only, "
+                  "Check/Recover/eager migration) re-establishes Inv with the same messages and NextOffset, so by the C03/C04 theorems "
+                  "Consume and Get answer identically; the lazy rebuild (reader.getIndex / ReindexAndReadIndex) returns an index that "
+                  "agrees with the log. Not yet proved in Coq: equality of the key-hash and timestamp columns with the derived index (the "
+                  "invariant tracks offsets and positions); that part is decided by the run-time check only. Tied to /repo by seeded "
+                  "histories: segment.Check on every segment of every closed directory (monotone times), and twin sessions with and "
+                  "without index files whose query answers (Consume, Get, key/time lookups, Stat) are compared line by line and with "
+                  "the extracted model.",
+             ref='6/C11', technique='Coq proof (closed-directory invariant, index removal, reopen) + differential correspondence',
+             note="Key-hash/timestamp columns of the index are not in the proved invariant yet (offsets and positions are). " + COMMON_NOTE),
+ 'C17': dict(text="Proof (Coq): Migrate of a closed directory preserves every message and NextOffset, leaves every segment in the requested "
+                  "version, and a second Migrate is the identity; Open with EagerVersionMigrate (and every other mode) of a directory whose "
+                  "segments use any mix of versions shows the same abstract log; delete-by-rewrite changes the abstract log only by the "
+                  "reported messages whatever the rewrite version (KeepRewriteVersion or not); the history theorem covers arbitrary "
+                  "interleavings of these with publishes in NewSegmentsVersion - the abstract log never depends on segment versions, i.e. "
+                  "mixed-version logs behave like single-version ones. Tied to /repo by seeded histories mixing V1/V2 publishes, deletes with "
+                  "both KeepRewriteVersion settings, Migrate and eager opens: all results compared with the extracted model, every C01-C04, "
+                  "C09, C10, C12 checker evaluated on them, and the version byte of every segment file after Migrate / rewrite / rollover "
+                  "checked, as well as byte-identical listings after a second Migrate.",
+             ref='6/C17', technique='Coq proof (migration/open/rewrite preserve the abstract log; idempotence) + differential correspondence'),
  'C12': dict(text="Proof (Coq): in every state satisfying Inv, for every offset set and every hash function, a successful Delete of the model "
                   "reports exactly the requested records of the segment holding the smallest requested offset (full content), the abstract "
                   "log afterwards is the old one minus exactly those messages, NextOffset and the invariant are preserved and the size is the "
@@ -71,8 +106,9 @@ CHECKS = {
                   "messages (refinement to spec_publish). NextOffset of the model is a function of the abstract state, which Consume/Get "
                   "are proved not to change. Tied to /repo by seeded histories biased to delete-last/delete-all -> reopen -> publish chains; "
                   "Publish return values, written-back offsets, NextOffset and Sync are compared and checked by check_publish/check_next on "
-                  "the implementation output. Delete/reopen preservation of NextOffset is covered by correspondence and the checkers; its "
-                  "Coq proof is listed in DESIGN.md as in progress.",
+                  "the implementation output. Never reused: over every history (deletes of the newest messages or of everything, close/reopen "
+                  "in any mode, migration, recovery) the offsets assigned by all successful publishes are strictly increasing in order of "
+                  "assignment, pairwise distinct and below the final NextOffset (history_refines + assigned_nodup).",
              ref='6/C02', technique='Coq proof (publish refinement, invariant preservation) + differential correspondence with extracted model'),
  'C04': dict(text="Proof (Coq): in every state satisfying Inv, for every offset (all non-negative ones, OffsetOldest, OffsetNewest) and every "
                   "hash function, the model's log.Get is accepted by check_get: exactly the live message with that offset; ErrNotFound for an "
